@@ -121,6 +121,11 @@ impl<R: RealNumberInternalTrait> BuiltinProcedureBody<R> {
         requires builtin_accepts(*self, args.spec_len()),
     { unimplemented!() }
 }
+/// values.rs `impl PartialEq for Procedure` (compares the code of user procedures, NOT their closures): opaque here
+impl<R: RealNumberInternalTrait> PartialEq for Procedure<R> {
+    #[verifier::external_body]
+    fn eq(&self, other: &Procedure<R>) -> (r: bool) { unimplemented!() }
+}
 impl<T> Located<T> {
     /// error.rs: Located::extract_data
     #[verifier::external_body]
@@ -294,6 +299,7 @@ UNIT = {
         "len": "ASSUMED CONTRACT: SmallVec::len / ParameterFormals::len return the modelled length / shape",
         "apply": "ASSUMED CONTRACT: a builtin body may be applied to a count its declared parameters accept",
         "extract_data": "Located::extract_data returns the data field (one-line getter in error.rs)",
+        "eq": "Procedure's hand-written PartialEq: no contract (it is NOT identity: closures are ignored)",
         "arity_mismatch_error": "X6: error!(LogicError::ArgumentMissMatch(..)) builds an error of the arity kind",
         "axiom_builtin_table": "TRUSTED DATA: library_map pairs each builtin body with its own parameter list",
     },
@@ -376,10 +382,16 @@ UNIT = {
                      ("X5", r"break body\.apply\(args, env\);", "return body.apply(args, env);"),
                      ("X5", r"break Ok\(return_value\);", "return Ok(return_value);"),
                  ],
-                 "body_start": "        let ghost args0 = args;\n        proof { axiom_builtin_table::<R>(); }",
+                 "body_start": "        let ghost args0 = args;\n        let ghost mut last_call: Option<(Procedure<R>, ArgVec<R>)> = None;\n"
+                               "        proof { axiom_builtin_table::<R>(); }",
+                 # (e) the next turn of the trampoline runs EXACTLY the procedure and the operands the pending tail call evaluated to
+                 "inserts": [(r"(?s)let \(tail_procedure, tail_args\) = Self::eval_procedure_call\(.*?\)\?;",
+                              "                            proof { last_call = Some((tail_procedure, tail_args)); }")],
                  "loops": {1: {"expect_kw": "loop", "invariant": """            invariant
-                current_procedure is None ==> args == args0,
-                current_procedure is Some ==> arity_ok(params_of(*initial_procedure), args0.spec_len()),"""}},
+                current_procedure is None ==> args == args0 && last_call is None,
+                current_procedure is Some ==> arity_ok(params_of(*initial_procedure), args0.spec_len()),
+                // (e) rebinding: what is applied next is what the last tail call evaluated to -- never a stale procedure or stale operands
+                last_call matches Some(lc) ==> current_procedure == Some(lc.0) && args == lc.1,"""}},
                  "contract": """        requires entry(*initial_procedure, args),
         ensures
             // (g) a procedure whose parameter list does not accept the argument count is an ArgumentMissMatch error
